@@ -9,7 +9,7 @@ TYPE_PALETTE = ["i32", "u64", "alloc::string::String", "alloc::vec::Vec<u8>", "&
                 "treedrv::nested::inner::Beta<u8>", "core::option::Option<treedrv::nested::Alpha>", "[u8; 4]",
                 "std::collections::hash::map::HashMap<alloc::string::String, u32>",
                 "treedrv::nested::inner::Beta<treedrv::nested::Alpha>", "u8", "alloc::boxed::Box<str>", "()"]
-PARALLELISM = 16
+PARALLELISM = 16      # replaced at start-up by what std::thread::available_parallelism() says on this machine (treecheck.init_parallelism)
 DEFAULT_SAMPLE_COUNT = 100
 
 
@@ -74,7 +74,7 @@ def opts_text(o):
 
 def beh_text(b):
     parts = ["cost:%d" % b["cost"], "step:%d" % b.get("step", 0), "mod:%d" % b.get("mod", 1), "an:%d" % b.get("an", 0), "az:%d" % b.get("az", 0),
-             "mode:%d" % b.get("mode", 0)]
+             "rg:%d" % b.get("rg", 0), "mode:%d" % b.get("mode", 0)]
     if b.get("bc"):
         parts.append("bc:" + ",".join("%d=%d" % kv for kv in b["bc"]))
     return ";".join(parts)
@@ -188,6 +188,8 @@ def rand_beh(rng, profile):
     if rng.random() < profile.get("p_alloc", 0.2):
         b["an"] = rng.choice([1, 2, 3])
         b["az"] = rng.choice([8, 64, 1000, 5000])
+        if rng.random() < 0.4:
+            b["rg"] = rng.choice([8, 100, 4096])
     if rng.random() < profile.get("p_bcounter", 0.15):
         b["bc"] = [(k, rng.choice([0, 3, 77, 4096])) for k in rng.sample([0, 1, 2, 3], rng.randrange(1, 3))]
     if rng.random() < profile.get("p_nobench", 0.03):
